@@ -624,6 +624,6 @@ def _buffered_readuntil(
             offset = buflen + 1 - seplen
             if offset > limit:
                 msg = "Separator is not found, and chunk exceed the limit"
-                raise LimitOverrunError(msg, buffer, offset, separator)
+                raise LimitOverrunError(msg, memoryview(buffer)[:buflen], offset, separator)
 
         buflen += yield buflen
